@@ -73,7 +73,7 @@ Section Model.
     let reversed := p <? #0 in
     if ac ==? de then (c, #0, TB_equal) else
     let vm := if vm <? #0 then - vm else vm in
-    if vm ==? #0 then (c, #0, TB_vm_zero) else            (* a zero velocity limit admits no motion (fix C14-1) *)
+    if vm ==? #0 then (c, #0, TB_vm_zero) else            (* a zero velocity limit allows no motion (fix b8b7c64) *)
     let v0 := sat v0 (- vm) vm in
     let v1 := sat v1 (- vm) vm in
     let c := t_set_p0 p0 c in
